@@ -37,8 +37,8 @@ extern "C" {
 unsigned vp_task_has_priority(graph_task* t) { return t->priority != no_priority; }
 // number of outstanding references on the graph's wait context (reserve_wait / tasks alive): wait_for_all returns iff 0
 unsigned long vp_graph_refs() { return vp_graph().my_wait_context_vertex.get_context().m_ref_count.load(std::memory_order_relaxed); }
-void vp_reserve_wait() { vp_graph().reserve_wait(); }
-void vp_release_wait() { vp_graph().release_wait(); }
+void vp_reserve_wait() { vp_graph().graph::reserve_wait(); }   // (non-virtual: the white-box graph has no vtable pointer)
+void vp_release_wait() { vp_graph().graph::release_wait(); }
 void vp_refv_init(unsigned k) { new (&vp_refv_mem[k].x) d1::reference_vertex(&vp_graph().my_wait_context_vertex, 0); }
 void* vp_refv(unsigned k) { return static_cast<d1::wait_tree_vertex_interface*>(&vp_refv_mem[k].x); }
 void* vp_graph_vertex() { return static_cast<d1::wait_tree_vertex_interface*>(&vp_graph().my_wait_context_vertex); }
